@@ -792,7 +792,7 @@ fn corpus(tables: &[TableRef]) -> Vec<(Parsed, &'static str)> {
         (where_unknown(&meta), "corpus:where-null-partition"),
         (order_by_bool(&t), "corpus:order-by-nullable-comparison"),
         (base(vec![Item::Unnamed(bin("<=", id("a"), id("f"))), Item::Unnamed(func("AVG", vec![id("f")]))], Lim::None, t.clone()), "corpus:open:groupby-computed-key"),
-        (order_by_isnull(&t), "corpus:open:orderby-isnull-key"),
+        (order_by_isnull(&t), "corpus:orderby-isnull-key"),
     ]
 }
 
